@@ -583,9 +583,19 @@ class DateTimeFieldFormat(AbstractFieldFormat):
             re.escape(human_readable_item)
             for human_readable_item, _ in DateTimeFieldFormat._HUMAN_READABLE_TO_STRPTIME_TUPLES
         )
-        self.strptime_format = re.sub(
-            human_readable_regex, lambda match: human_readable_to_strptime_map[match.group(0)], rule
-        )
+        used_human_readable_items = set()
+
+        def strptime_item(match):
+            human_readable_item = match.group(0)
+            if human_readable_item != "%":
+                if human_readable_item in used_human_readable_items:
+                    raise errors.InterfaceError(
+                        "date format must contain %s only once: %s" % (human_readable_item, _compat.text_repr(rule))
+                    )
+                used_human_readable_items.add(human_readable_item)
+            return human_readable_to_strptime_map[human_readable_item]
+
+        self.strptime_format = re.sub(human_readable_regex, strptime_item, rule)
         self._has_time = any(
             directive in self.strptime_format for directive in DateTimeFieldFormat._STRPTIME_TIME_DIRECTIVES
         )
